@@ -114,6 +114,8 @@ class Ctx(object):
                 for f in self.known:
                     if f["id"] == fid and f.get("dev_table"):
                         self.records.append((fid, F.table_key(f["dev_table"]["keys"], case, site), dev))
+                    elif f["id"] == fid and f.get("input_list"):
+                        self.records.append((fid, F.table_key(f["input_list"]["keys"], case, site), 1))
         fid = F.match(self.known, self.clause, site, case, dev)
         if fid is not None:
             h = self.hits.setdefault(fid, [0, None, None])
